@@ -223,10 +223,41 @@ def plan(tier, seed, kf_ids):
                         "concrete literals at the carry into the integer part of %s (k.99..9 rounding up / staying below, the exact tie below k+1 "
                         "and a hair above it, odd and even k): nearest value, ties to even, exact flag; expected values by exact rational "
                         "arithmetic in the driver" % c.alias(s, w, f), timeout=2400, inst=c.alias(s, w, f), bounds="%d concrete literals" % len(lits)))
+    # ---- the decimal-fraction kernels, driven directly through the verif_kernels hook
+    for (kfn, D, dec, bn) in (("dec_to_bin_u8", "u16", 3, 8), ("dec_to_bin_u16", "u32", 6, 16)):
+        nm = "c08_kernel_%s" % kfn
+        jobs.append(Job(nm, "c08_dec_kernel!(%s, %s, %s, %d, %d, div);" % (nm, kfn, D, dec, bn),
+                        "%s(val, nbits, Nearest) for EVERY val < 10^%d and every nbits <= %d: Some(RNE(val*2^nbits/10^%d)), or None exactly when that "
+                        "rounds up to 2^nbits (oracle: exact division in u128)" % (kfn, dec, bn, dec), timeout=1500, inst=kfn,
+                        bounds="all val < 10^%d, all nbits <= %d" % (dec, bn)))
+    kern = [("dec_to_bin_u32", "u64", 13, [0, 1, 17, 32] if not q else [17, 32], False), ("dec_to_bin_u64", "u128", 27, [0, 33, 64] if not q else [33, 64], False)]
+    if not q:
+        kern.append(("dec_to_bin_u32", "u64", 13, [17], True))
+    for (kfn, D, dec, nbl, value) in kern:
+        for nb in nbl:
+            nm = "c08_kernel_%s_n%d%s" % (kfn, nb, "_value" if value else "")
+            jobs.append(Job(nm, "c08_dec_kernel!(%s, %s, %s, %d, %d, %s, mulback);" % (nm, kfn, D, dec, nb, "true" if value else "false"),
+                            "%s(val, %d, Nearest) for EVERY val < 10^%d: None exactly when the fraction rounds up to 1.0%s"
+                            % (kfn, nb, dec, ", otherwise RNE by multiply-back" if value else " (the quotient by the constant 2*5^%d is sliced away: no verdict in 5 min)" % dec),
+                            timeout=1500, inst=kfn, bounds="all val < 10^%d, nbits = %d" % (dec, nb)))
+    for nb in ([65, 96, 127] if q else [0, 1, 64, 65, 66, 80, 96, 112, 126, 127, 128]):
+        nm = "c08_kernel_dec128_none_n%d" % nb
+        jobs.append(Job(nm, "#[kani::proof]\npub fn %s() { dec128_none::<%d>(); }" % (nm, nb),
+                        "dec_to_bin_u128((hi, lo), %d, Nearest) for EVERY hi, lo < 10^27: None exactly when (hi*10^27+lo)/10^54 rounds up to 1.0 at %d "
+                        "fractional bits (threshold comparison in 256-bit arithmetic)" % (nb, nb), timeout=1500, inst="dec_to_bin_u128",
+                        bounds="all hi, lo < 10^27; nbits = %d" % nb))
+    fk = [("frac_to_bin_u8", ln, 0, 8) for ln in ((4, 5, 6, 8) if q else (3, 4, 5, 6, 7, 8, 10))] + [("frac_to_bin_u16", 7, 9, 9)]
+    for (kfn, ln, nlo, bn) in fk:
+        nm = "c08_frackernel_%s_len%d_n%d_%d" % (kfn, ln, nlo, bn)
+        jobs.append(Job(nm, "c08_frac_kernel!(%s, %s, %d, %d, %d, %d);" % (nm, kfn, ln, nlo, bn, ln + 4),
+                        "%s(digits, nbits) for EVERY string of %d decimal digits (last one non-zero) and EVERY nbits in %d..=%d: RNE(0.digits * 2^nbits), None "
+                        "exactly when that is 2^nbits" % (kfn, ln, nlo, bn), timeout=600, inst=kfn, bounds="all 9*10^%d strings x %d bit counts" % (ln - 1, bn - nlo + 1)))
     return {
         "feature": "c08",
         "jobs": jobs,
-        "functions": ["from_str.rs: parse_bounds, from_str_{i,u}{8,16,32,64,128}, get_int*, get_frac*, dec_str_int_to_bin, "
+        "functions": ["[through the verif_kernels hook] from_str.rs: DecToBin::dec_to_bin for u8, u16 (value and None, all val, all nbits), u32, u64, u128 "
+                      "(the rounds-up-to-one decision, all val); dec_str_frac_to_bin::<u8> (all digit strings of 4..8 (10) digits, all nbits), ::<u16> (7 digits, nbits 9)",
+                      "from_str.rs: parse_bounds, from_str_{i,u}{8,16,32,64,128}, get_int*, get_frac*, dec_str_int_to_bin, "
                       "dec_str_frac_to_bin (fast path dec_to_bin and digit-by-digit slow path), bin/oct/hex_str_*_to_bin",
                       "macros_from_to.rs: from_str*, saturating_/wrapping_/overflowing_from_str* for all four radices"],
         "bounds": "8-bit types: every ASCII string of length <= 5 (quick) / 6 (well-formedness, all radices); every digit string of "
